@@ -80,27 +80,18 @@ func checkC03(c *Ctx) {
 		return
 	}
 	cnt := an.CountEvents(serve, an.Entry(serve), isEvent, nil)
-	isReqNil := func(v ssa.Value) bool {
-		x, _, ok := an.NilCheck(v)
-		return ok && an.Strip(x) == ssa.Value(serve.Params[2])
-	}
-	isHNil := func(v ssa.Value) bool {
-		x, _, ok := an.NilCheck(v)
-		if !ok {
-			return false
-		}
-		call, ok := an.Strip(x).(*ssa.Call)
-		return ok && call.Common().IsInvoke() && call.Common().Method.Name() == "handler"
-	}
 	for _, ret := range an.Returns(serve) {
 		key := "(*Mux).serve: exactly one handler or refusal per request"
 		switch cnt[ret] {
 		case an.C1:
 			R.OK("C03-once", key, c.pos(ret), "on every path to this return exactly one handler invocation / refusal")
 		case an.C0:
-			if hasFact(ret.Block(), true, isReqNil) {
+			if nilFact(ret.Block(), true, func(x ssa.Value) bool { return an.Strip(x) == ssa.Value(serve.Params[2]) }) {
 				R.OK("C03-once", key+" (req == nil guard)", c.pos(ret), "only when req is nil, which both callers exclude (request is the error-checked result of readRequest)")
-			} else if hasFact(ret.Block(), true, isHNil) {
+			} else if nilFact(ret.Block(), true, func(x ssa.Value) bool {
+				call, ok := an.Strip(x).(*ssa.Call)
+				return ok && call.Common().IsInvoke() && call.Common().Method.Name() == "handler"
+			}) {
 				R.OK("C03-once", key+" (nil handler guard)", c.pos(ret), "only when a route has a nil handler, which C03-nonnil-handler excludes")
 			} else {
 				R.Fail("C03-once", key, c.pos(ret), "a request can leave serve without any handler having run and without the built-in refusal: it is silently dropped")
@@ -134,7 +125,7 @@ func checkC03(c *Ctx) {
 		}
 		if _, ok := fieldLoad(recv, G, "Mux", "unbindRoute"); ok {
 			// the optional unbind route consulted by the mux itself: only for Unbind requests, only when set
-			okU := hasFact(h.Block(), true, c.isUnbindAtom()) && nilFact(h.Block(), false, func(x ssa.Value) bool { _, ok := fieldLoad(x, G, "Mux", "unbindRoute"); return ok })
+			okU := hasEqFact(h.Block(), true, c.isUnbindAtom()) && nilFact(h.Block(), false, func(x ssa.Value) bool { _, ok := fieldLoad(x, G, "Mux", "unbindRoute"); return ok })
 			R.Check(okU, "C03-order", "(*Mux).serve: unbind route only for Unbind requests", c.pos(h), "guarded by routeOp == unbind and unbindRoute != nil", "the unbind route's handler can be given a request that is not an Unbind (or the route may be nil)")
 			continue
 		}
@@ -743,10 +734,55 @@ func (c *Ctx) evalAppCode(app ssa.Value, serve *ssa.Function, opVal string) (int
 	if f == nil || !an.InModule(f) || len(f.Params) != 1 || an.Strip(call.Common().Args[0]) != ssa.Value(serve.Params[2]) {
 		return 0, "application code helper is not a function of the request"
 	}
+	// lookups of the request's operation in a package-level table: `code, found := table[r.routeOp]`
+	tables := map[*ssa.Lookup]map[string]int64{}
+	lookupAtom := map[string]*ssa.Lookup{}
+	bad := ""
+	an.Instrs(f, func(in ssa.Instruction) {
+		lk, ok := in.(*ssa.Lookup)
+		if !ok || !lk.CommaOk {
+			return
+		}
+		if _, isOp := fieldLoad(lk.Index, G, "Request", "routeOp"); !isOp {
+			return
+		}
+		tab, okTab := an.GlobalMapTable(lk.X)
+		if !okTab {
+			bad = "the table indexed by the request's operation is not a package-level map filled only by its literal"
+			return
+		}
+		m := map[string]int64{}
+		for _, e := range tab.Entries {
+			ks, okK := an.StrConst(e.Key)
+			vi, okV := an.IntConst(e.Val)
+			if !okK || !okV {
+				bad = "non-constant entry in the response-code table"
+				return
+			}
+			m[ks] = vi
+		}
+		tables[lk] = m
+		if lk.Referrers() != nil {
+			for _, r := range *lk.Referrers() {
+				if ex, ok := r.(*ssa.Extract); ok && ex.Index == 1 {
+					name, _ := an.CanonAtom(ex)
+					lookupAtom[name] = lk
+				}
+			}
+		}
+	})
+	if bad != "" {
+		return 0, bad
+	}
 	w := &an.Walker{Fn: f}
 	atoms := w.CondAtoms()
 	val := map[string]bool{}
 	for _, a := range atoms {
+		if lk, ok := lookupAtom[a]; ok {
+			_, in := tables[lk][opVal]
+			val[a] = in
+			continue
+		}
 		// atoms of the form ==("<const>",$0.routeOp)
 		if !strings.HasSuffix(a, ",$0.routeOp)") || !strings.HasPrefix(a, "==(\"") {
 			return 0, "helper branches on something else than the request's operation: " + a
@@ -758,7 +794,16 @@ func (c *Ctx) evalAppCode(app ssa.Value, serve *ssa.Function, opVal string) (int
 	if k.Undecided != "" || k.Ret == nil {
 		return 0, "cannot evaluate the helper: " + k.Undecided
 	}
-	v, ok := an.IntConst(k.Resolve(k.Ret.Results[0]))
+	res := k.Resolve(k.Ret.Results[0])
+	if ex, ok := res.(*ssa.Extract); ok && ex.Index == 0 {
+		if lk, ok := ex.Tuple.(*ssa.Lookup); ok {
+			if v, in := tables[lk][opVal]; in {
+				return v, ""
+			}
+			return 0, "helper returns the table entry of an operation that is not in the table"
+		}
+	}
+	v, ok := an.IntConst(res)
 	if !ok {
 		return 0, "helper does not return a constant"
 	}
@@ -789,7 +834,7 @@ func (c *Ctx) checkDispatch(m *serverModel) {
 		if _, reached := cnt[ret]; !reached {
 			continue
 		}
-		if hasFact(ret.Block(), true, isUnbind) {
+		if hasEqFact(ret.Block(), true, isUnbind) {
 			continue // unbind: C10
 		}
 		// error paths after read (err != nil) have 0 dispatches: fine; success paths cannot return otherwise
